@@ -166,42 +166,44 @@ def indent_width(s):
     return sum(1 if c == " " else 4 for c in s)
 
 
-def junk_lines(rng, u, min_indent_exclusive, density):
-    """junk lines allowed by the guard: blank / white-space-only / comment-only lines whose
-    indentation (in Reduino's measure) is greater than min_indent_exclusive (None = any)"""
+def junk_lines(rng, u, depth, density):
+    """junk lines allowed by the guard: blank / white-space-only lines and comment-only lines at ANY
+    column - column 0, shallower than, equal to and deeper than the indentation of the statement
+    (depth `depth`, unit u) they precede"""
     out = []
+    iw = len(u)
     while rng.random() < density:
-        if rng.random() < 0.5:
+        if rng.random() < 0.4:
             out.append(rng.choice(BLANKS))
         else:
-            lo = 0 if min_indent_exclusive is None else min_indent_exclusive + 1
             if u[0] == "\t":
-                ntabs = (lo + 3) // 4 + rng.choice([0, 0, 1, 2])
-                ws = "\t" * ntabs
+                ws = "\t" * rng.choice([0, 0, max(0, depth - 1) * iw, depth * iw, depth * iw + 1, (depth + 1) * iw, rng.randint(0, (depth + 2) * iw)])
             else:
-                ws = " " * (lo + rng.choice([0, 0, 0, 1, 2, len(u), 2 * len(u)]))
+                ws = " " * rng.choice([0, 0, 1, max(0, depth - 1) * iw, max(0, depth * iw - 1), depth * iw, depth * iw + 1,
+                                       (depth + 1) * iw, rng.randint(0, (depth + 2) * iw)])
+            if rng.random() < 0.1:          # the other kind of white space: a comment line's indentation means nothing
+                ws = rng.choice([" \t", "\t ", "  \t  "]) if u[0] != "\t" else " " * rng.randint(1, 9)
             out.append(ws + rng.choice(COMMENT_TEXTS))
     return out
 
 
-def trail(rng, allow_comment, density):
+def trail(rng, density):
+    """what may follow a statement on its line (any statement: simple, block header at any depth
+    including column 0, elif / else / except, def, the main loop header, an import): blanks, or
+    blanks and a comment"""
     if rng.random() >= density:
         return ""
-    if allow_comment and rng.random() < 0.6:
+    if rng.random() < 0.6:
         return rng.choice(["  ", " ", "", "\t"]) + rng.choice(COMMENT_TEXTS)
     return rng.choice(TRAIL_WS)
 
 
-def lay_node(rng, n, u, depth, top, density, sp):
-    iw = indent_width(u)
+def lay_node(rng, n, u, depth, density, sp):
     if n[0] == "leaf":
-        bound = None if depth == 0 else (depth - 1) * iw
-        return ("leaf", junk_lines(rng, u, bound, density), vary_spacing(rng, n[1], sp), trail(rng, True, density))
+        return ("leaf", junk_lines(rng, u, depth, density), vary_spacing(rng, n[1], sp), trail(rng, density))
     _, k, h, body = n
-    bound = depth * iw if k in CONT else (None if depth == 0 else (depth - 1) * iw)
-    allow = (k not in CONT) and not top
-    return ("block", junk_lines(rng, u, bound, density), k, vary_spacing(rng, h, sp), trail(rng, allow, density),
-            [lay_node(rng, m, u, depth + 1, False, density, sp) for m in body])
+    return ("block", junk_lines(rng, u, depth, density), k, vary_spacing(rng, h, sp), trail(rng, density),
+            [lay_node(rng, m, u, depth + 1, density, sp) for m in body])
 
 
 def lay_program(rng, tops, u, density=0.35, sp=0.0):
@@ -210,13 +212,64 @@ def lay_program(rng, tops, u, density=0.35, sp=0.0):
     out = []
     for t in tops:
         if t[0] == "chain":
-            out.append(("chain", [lay_node(rng, n, u, 0, True, density, sp) for n in t[1]]))
+            out.append(("chain", [lay_node(rng, n, u, 0, density, sp) for n in t[1]]))
         elif t[0] == "imp":
-            out.append(("imp", junk_lines(rng, u, None, density), t[1], trail(rng, False, density)))
+            out.append(("imp", junk_lines(rng, u, 0, density), t[1], trail(rng, density)))
         else:
-            out.append((t[0], junk_lines(rng, u, None, density), vary_spacing(rng, t[1], sp), trail(rng, False, density),
-                        [lay_node(rng, m, u, 1, False, density, sp) for m in t[2]]))
-    return out, junk_lines(rng, u, None, density)
+            out.append((t[0], junk_lines(rng, u, 0, density), vary_spacing(rng, t[1], sp), trail(rng, density),
+                        [lay_node(rng, m, u, 1, density, sp) for m in t[2]]))
+    return out, junk_lines(rng, u, 0, density)
+
+
+def formerly_excluded(ltops, u):
+    """counts, over one laid-out program, of the layout features that were outside the guard before the
+    repair of the comment handling (each was a listed finding): comment-only lines not indented deeper
+    than the header of the block that contains them (or than the elif/else/except they precede),
+    trailing comments on column-0 headers / def / main loop / imports, trailing comments on
+    elif/else/except"""
+    iw = indent_width(u)
+    c = {"comment_line_not_deeper_than_block_header": 0, "comment_line_at_column_0_inside_block": 0,
+         "comment_line_not_deeper_before_elif_else_except": 0, "trailing_comment_on_column0_header": 0,
+         "trailing_comment_on_def_main_import": 0, "trailing_comment_on_elif_else_except": 0}
+
+    def is_comment(l):
+        return l.lstrip().startswith("#")
+
+    def ind(l):
+        return indent_width(l[: len(l) - len(l.lstrip(" \t"))])
+
+    def node(n, depth, top):
+        pre = n[1]
+        cont = n[0] == "block" and n[2] in CONT
+        for l in pre:
+            if not is_comment(l):
+                continue
+            if cont and ind(l) <= depth * iw:
+                c["comment_line_not_deeper_before_elif_else_except"] += 1
+            elif depth >= 1 and ind(l) <= (depth - 1) * iw:
+                c["comment_line_not_deeper_than_block_header"] += 1
+                if ind(l) == 0:
+                    c["comment_line_at_column_0_inside_block"] += 1
+        if n[0] == "block":
+            if "#" in n[4]:
+                if cont:
+                    c["trailing_comment_on_elif_else_except"] += 1
+                elif top:
+                    c["trailing_comment_on_column0_header"] += 1
+            for m in n[5]:
+                node(m, depth + 1, False)
+
+    for t in ltops:
+        if t[0] == "chain":
+            for n in t[1]:
+                node(n, 0, True)
+        elif t[0] == "imp":
+            c["trailing_comment_on_def_main_import"] += int("#" in t[3])
+        else:
+            c["trailing_comment_on_def_main_import"] += int("#" in t[3])
+            for m in t[4]:
+                node(m, 1, False)
+    return c
 
 
 def canonical(tops):
